@@ -65,7 +65,7 @@ package redisemu
 //@ func fnExec
 //@ prop C09
 //@ requires ctxOK(ctx)
-//@ requires [C09] unlocked: !held
+//@ requires [C09] unlocked: !held && lockMode(ctx.dsc)
 //@ requires ctx.cd.dss != nil
 //@ requires qwf: ctx.cs.cmdQueue != nil ==> all(j, 0, len(*ctx.cs.cmdQueue), (*ctx.cs.cmdQueue)[j] != nil && (*ctx.cs.cmdQueue)[j].dsc != nil && (*ctx.cs.cmdQueue)[j].cs == ctx.cs && (*ctx.cs.cmdQueue)[j].args != nil)
 //@ modifies *
@@ -74,6 +74,6 @@ package redisemu
 //@ ensures reset.watches: old(ctx.cs.cmdQueue) != nil ==> emptymap(ctx.cs.watches)
 //@ ensures reset.failed: old(ctx.cs.cmdQueue) != nil ==> !ctx.cs.cmdQueueFailed
 //@ ensures failed: old(ctx.cs.cmdQueue) != nil && old(ctx.cs.cmdQueueFailed) ==> dispatched == old(dispatched) && istype(output.data, respErrorString)
-//@ ensures released: !held
+//@ ensures released: !held && lockMode(ctx.dsc)
 //@ ensures all: output.data != nil && !istype(output.data, respErrorString) ==> dispatched == old(dispatched) + old(len(*ctx.cs.cmdQueue))
-//@ loop 1 invariant held && dispatched == old(dispatched) + ri1 && len(results) == ri1 && ctx.cs != nil && !ctx.cs.cmdQueueFailed
+//@ loop 1 invariant ctx.dsc.id != 0 && ctx.dsc.ds.multiLock == ctx.dsc.id && held && dispatched == old(dispatched) + ri1 && len(results) == ri1 && ctx.cs != nil && !ctx.cs.cmdQueueFailed
